@@ -917,7 +917,9 @@ def _run(tier, res, b):
             if mod != real and "generator" not in diffs:
                 gen_diffs += 1
                 note_diff("generator", {"ops": [{k_: v_ for k_, v_ in o.items() if k_ not in ("padding",)} for o in spec]},
-                          mod if mod == ("assert",) else [list(x) for x in mod][:12], real if real == ("assert",) else [list(x) for x in real][:12])
+                          mod if mod == ("assert",) else [list(x) for x in mod][:12],
+                          ("real generator raised " + real[1]) if (real and real[0] == "exception") else
+                          real if real == ("assert",) else [list(x) for x in real][:12])
         if real and real[0] == "exception":
             gen_exceptions.append(real[1])
             note_diff("generator", {"ops": [{k_: v_ for k_, v_ in o.items() if k_ not in ("padding",)} for o in spec]},
